@@ -73,6 +73,8 @@ def nested_blocks(rng):
     names = rng.sample(["Z", "C", "A", "M", "B", "Q", "Y", "D"], rng.randint(2, 5))
     lets = [("let", (n,), rng.choice([("int", 10 + i, "dec"), ("str", [("v%d" % i).encode()]), ("cap", (), ("int", i, "dec"))])) for i, n in enumerate(names)]
 
+    counter = [0]
+
     def level(k):
         items = []
         for n in rng.sample(names, rng.randint(0, len(names))):
@@ -92,7 +94,18 @@ def nested_blocks(rng):
         if not items:
             items = [("int", 0, "dec")]
         body = ("alt", items) if len(items) > 1 else items[0]
-        return ("cap", (), body)
+        # this level may rebind names that are also visible from outside (by let, or as a parameter of the block it is):
+        # its own reads AND the blocks nested in it must then see the new value, the levels outside the old one
+        shadow = []
+        if rng.random() < 0.45:
+            for n in rng.sample(names, rng.randint(1, min(2, len(names)))):
+                counter[0] += 1
+                shadow.append(("let", (n,), rng.choice([("int", 100 + counter[0], "dec"), ("str", [("w%d" % counter[0]).encode()])])))
+        if shadow and rng.random() < 0.3:
+            # as a scope parameter instead of a let
+            first = shadow.pop(0)
+            return ("cap", (), ("cat", [first[2], ("paren", first[1], ("cat", shadow + [body]))]))
+        return ("cap", (), ("cat", shadow + [body]) if shadow else body)
     prog = ("cat", lets + [("block", (), level(rng.randint(1, 3))), ("word", "apply")])
     if rng.random() < 0.4:
         # several inputs reach the same nested blocks
